@@ -7,7 +7,6 @@ for both tag-based endpoint clients and the main API client.
 
 import tempfile
 import traceback
-from collections import defaultdict
 from pathlib import Path
 
 from pyopenapi_gen import IROperation, IRSpec
@@ -111,13 +110,19 @@ class MocksEmitter:
             raise
 
     def _group_operations_by_tag(self, spec: IRSpec) -> dict[str, list[IROperation]]:
-        """Group operations by their OpenAPI tag."""
-        operations_by_tag: dict[str, list[IROperation]] = defaultdict(list)
+        """Group operations by tag exactly as the endpoint clients are grouped.
 
-        for operation in spec.operations:
-            tag = operation.tags[0] if operation.tags else "default"
-            operations_by_tag[tag].append(operation)
-
+        Every tag of an operation counts, spellings of one tag (Users/users) are merged and the
+        group is named by the same canonical spelling APIClient uses.
+        """
+        operations_by_tag: dict[str, list[IROperation]] = {}
+        for canonical_tag, _, _ in self.client_visitor.tag_tuples(spec):
+            tag_key = NameSanitizer.normalize_tag_key(canonical_tag)
+            operations_by_tag[canonical_tag] = [
+                op
+                for op in spec.operations
+                if tag_key in {NameSanitizer.normalize_tag_key(tag) for tag in (op.tags or ["default"])}
+            ]
         return operations_by_tag
 
     def _generate_mock_endpoints_init(self, tag_tuples: list[tuple[str, str, str]]) -> str:
